@@ -27,7 +27,8 @@ class DomainStep(Family):
 
     def configs(self, tier):
         Ls = (3, 4) if tier == "quick" else (3, 4, 5, 6)
-        return [{"L": L, "d": d} for L in Ls for d in domain_ops(tier)]
+        # min/max over L symbolic values forks over all orderings: normalisation is bounded at L <= 5
+        return [{"L": L, "d": d} for L in Ls for d in domain_ops(tier) if not (L > 5 and d["op"].startswith("normalize"))]
 
     def run(self, ctx, inst, L, d):
         st = make_state(ctx, L, "tracked")
